@@ -112,12 +112,66 @@ func init() {
 				}
 				return "", false
 			}
+			// identifiers are compared by role, not by name: the returned accumulator is "h1", the
+			// first parameter "data", the local holding uint32(len(data)) "inputLen", every other
+			// local "k1"
+			roles := map[types.Object]string{}
+			sigT := f.Obj.Type().(*types.Signature)
+			if sigT.Params().Len() >= 1 {
+				roles[sigT.Params().At(0)] = "data"
+			}
+			inspect(f.Decl.Body, func(nd ast.Node) bool {
+				switch x := nd.(type) {
+				case *ast.ReturnStmt:
+					if len(x.Results) == 1 {
+						if o := prog.IdentObj(info, x.Results[0]); o != nil {
+							roles[o] = "h1"
+						}
+					}
+				case *ast.AssignStmt:
+					if x.Tok == token.DEFINE && len(x.Lhs) == 1 && len(x.Rhs) == 1 {
+						if c, ok := stripConv(info, x.Rhs[0]).(*ast.CallExpr); ok {
+							if id, ok := c.Fun.(*ast.Ident); ok && id.Name == "len" {
+								if o := prog.IdentObj(info, x.Lhs[0]); o != nil {
+									roles[o] = "inputLen"
+								}
+							}
+						}
+					}
+				}
+				return true
+			})
+			var canon func(e ast.Expr) string
+			canon = func(e ast.Expr) string {
+				e = ast.Unparen(e)
+				switch x := e.(type) {
+				case *ast.Ident:
+					if o := info.Uses[x]; o != nil {
+						if rname, ok := roles[o]; ok {
+							return rname
+						}
+						if _, isVar := o.(*types.Var); isVar {
+							return "k1"
+						}
+					}
+					if o := info.Defs[x]; o != nil {
+						if rname, ok := roles[o]; ok {
+							return rname
+						}
+						return "k1"
+					}
+					return x.Name
+				case *ast.IndexExpr:
+					return canon(x.X) + "[" + types.ExprString(x.Index) + "]"
+				}
+				return types.ExprString(e)
+			}
 			var sig []string
 			inspect(f.Decl.Body, func(nd ast.Node) bool {
 				switch x := nd.(type) {
 				case *ast.AssignStmt:
 					if len(x.Lhs) == 1 && len(x.Rhs) == 1 {
-						l := types.ExprString(x.Lhs[0])
+						l := canon(x.Lhs[0])
 						switch x.Tok {
 						case token.MUL_ASSIGN:
 							if c, ok := constOf(x.Rhs[0]); ok {
@@ -126,15 +180,15 @@ func init() {
 						case token.XOR_ASSIGN:
 							if b, ok := ast.Unparen(x.Rhs[0]).(*ast.BinaryExpr); ok && b.Op == token.SHR {
 								if c, ok := constOf(b.Y); ok {
-									sig = append(sig, l+"^="+types.ExprString(b.X)+">>"+c)
+									sig = append(sig, l+"^="+canon(b.X)+">>"+c)
 								}
 							} else if id, ok := ast.Unparen(x.Rhs[0]).(*ast.Ident); ok {
-								sig = append(sig, l+"^="+id.Name)
+								sig = append(sig, l+"^="+canon(id))
 							}
 						case token.ASSIGN:
 							if call, ok := isCallToNamed(info, x.Rhs[0], "math/bits", "RotateLeft32"); ok && len(call.Args) == 2 {
 								if c, ok := constOf(call.Args[1]); ok {
-									sig = append(sig, l+"=rotl("+types.ExprString(call.Args[0])+","+c+")")
+									sig = append(sig, l+"=rotl("+canon(call.Args[0])+","+c+")")
 								}
 							}
 							if b, ok := ast.Unparen(x.Rhs[0]).(*ast.BinaryExpr); ok && b.Op == token.ADD {
@@ -142,7 +196,7 @@ func init() {
 									c1, ok1 := constOf(m.Y)
 									c2, ok2 := constOf(b.Y)
 									if ok1 && ok2 {
-										sig = append(sig, l+"="+types.ExprString(m.X)+"*"+c1+"+"+c2)
+										sig = append(sig, l+"="+canon(m.X)+"*"+c1+"+"+c2)
 									}
 								}
 							}
@@ -163,7 +217,7 @@ func init() {
 			// seed: h1 := uint32(seed)
 			okSeed := false
 			inspect(f.Decl.Body, func(nd ast.Node) bool {
-				if as, ok := nd.(*ast.AssignStmt); ok && as.Tok == token.DEFINE && len(as.Lhs) == 1 && types.ExprString(as.Lhs[0]) == "h1" {
+				if as, ok := nd.(*ast.AssignStmt); ok && as.Tok == token.DEFINE && len(as.Lhs) == 1 && canon(as.Lhs[0]) == "h1" {
 					if r.isParam(f, stripConv(info, as.Rhs[0]), 1) {
 						okSeed = true
 					}
@@ -178,7 +232,7 @@ func init() {
 			inspect(f.Decl.Body, func(nd ast.Node) bool {
 				if b, ok := nd.(*ast.BinaryExpr); ok && b.Op == token.SHL {
 					if c, ok := constOf(b.Y); ok {
-						shifts = append(shifts, types.ExprString(stripConv(info, b.X))+"<<"+c)
+						shifts = append(shifts, canon(stripConv(info, b.X))+"<<"+c)
 					}
 				}
 				return true
